@@ -40,12 +40,15 @@ TRUSTED = [
 ]
 ASSUMPTIONS = ["exact arithmetic in the theorems; implementation compared to 1e-7",
                "singular values of generated inputs stay outside [1e-9, 1e-5], except the boundary families with one coefficient at 3.3e-8 "
-               "(oracle and tie; excluded band (5e-8, 2e-7) there) and 3e-7 (tie of the plan only)",
+               "(oracle and tie; excluded band (5e-8, 2e-7) there) and 3e-7 (tie of the plan only), and the input-diversity families "
+               "(keys div:*: light tails 1e-3 .. 1e-6 of Schmidt coefficients and of amplitudes; excluded band (5e-8, 2e-7) only)",
                "partition: duplicate-free list of qubits < n in any order (C07_placement); unsorted lists are exercised in tie and oracle and by a fixed regression probe (key lowrank.partition-order:unsorted-list)"]
 RULE = ("tie: (n, partition list, lr, scheme pair) whose observed plan (rank, ebits, registers, fan-out pairs, encoder kind and "
         "shape per block) was diffed against the Lean model; oracle: (family, n, partition, lr, scheme pair) on which the "
         "Statevector of the real LowRankInitialize was compared with an independent numpy truncation and the fidelity with the "
-        "sum of the r' largest squared singular values; non-trivial = n>=2, non-empty proper partition")
+        "sum of the r' largest squared singular values; non-trivial = n>=2, non-empty proper partition; diversity cases (div:*): "
+        "(form family, state container / element type, partition container / order, lr type, option keys, call form, host and qubit "
+        "specifier) per entry point - constructor + .definition, static initialize with qubits=None and with an explicit list")
 
 SCHEMES = (("ccd", "qsd"), ("knill", "csd"))
 UNSORTED_KEY = "lowrank.partition-order:unsorted-list"
@@ -55,15 +58,21 @@ UNSORTED_KEY = "lowrank.partition-order:unsorted-list"
 # tie: observe the plan of the real _define_initialize (K4 callees replaced by recording stubs)
 # ---------------------------------------------------------------------------------------------
 
-def observe_plan(v, n, part, lr, iso, uni, mode=None):
+def observe_plan(v, n, part, lr, iso, uni, mode=None, gate=None):
     """`mode`: see build_opts ('no-schemes' / 'default-partition' / 'none' leave options at their defaults; the op sent to
-    the model then names the documented defaults ccd / qsd / first ceil(n/2) qubits / lr = 0)."""
+    the model then names the documented defaults ccd / qsd / first ceil(n/2) qubits / lr = 0).
+    `gate`: observe THIS LowRankInitialize object (built by the caller from inputs in some other form - tuple / numpy
+    partition, numpy rank, partial dictionary, taken out of a host circuit after the static helper ...) instead of
+    building one; v / part / lr / iso / uni are then the canonical values the model is asked about."""
     from unittest import mock
     from qiskit import QuantumCircuit
     from qclib.state_preparation import lowrank
     from qclib.entanglement import _separation_matrix, _effective_rank
-    opts = build_opts({"mode": mode, "lr": lr, "partition": list(part), "iso": iso, "uni": uni})
-    g = lowrank.LowRankInitialize(v, opt_params=opts)
+    if gate is None:
+        opts = build_opts({"mode": mode, "lr": lr, "partition": list(part), "iso": iso, "uni": uni})
+        g = lowrank.LowRankInitialize(v, opt_params=opts)
+    else:
+        g = gate
     ev = []
     cap = {}
     orig_cls = lowrank.LowRankInitialize
@@ -118,6 +127,9 @@ def observe_plan(v, n, part, lr, iso, uni, mode=None):
         except Exception as ex:   # the real code failed on a valid input: shows up as a tie diff, then the search runs
             s = np.linalg.svd(_separation_matrix(n, v, list(part)), compute_uv=False)
             return [f"raised-{type(ex).__name__}"], [float(x) for x in s]
+        finally:
+            if gate is not None:   # the caller's object goes on being used: take the spies off again
+                del g._create_quantum_circuit, g._encode
     s = np.linalg.svd(_separation_matrix(n, v, list(part)), compute_uv=False)
     eff = int(_effective_rank(s))
     sd = [e for e in ev if e[0] == "sd"]
@@ -725,6 +737,1095 @@ def probe_randomized_nested(ctx):
                          "therefore use lr = 2 only")
 
 
+# ---------------------------------------------------------------------------------------------
+# input diversity: the FORM of otherwise ordinary inputs (element types, scale structure, sign / phase structure, call
+# forms, loop-count sizes) for every public entry point the property names:
+#   ctor    LowRankInitialize(params, label=None, opt_params=None) + .definition
+#   static  LowRankInitialize.initialize(q_circuit, state, qubits=None, opt_params=None), with qubits=None on a host of
+#           exactly n qubits and with an explicit qubit list on a LARGER host (permuted, non-ascending, non-contiguous)
+#
+#   form                                                    ctor           static qubits=None   static qubits=[...]
+#   ------------------------------------------------------  -------------  -------------------  ---------------------
+#   1 state: int list / int tuple / int64 (basis, +-1)      div_types      div_types            div_types
+#     float / complex list, tuple, numpy scalars            div_types      div_types            div_types
+#     float64, complex128, complex with zero imaginary      div_types      div_types (+gen_tasks) div_types
+#     negative zeros (real, complex)                        div_types      div_types            div_types
+#     float32 / complex64 exactly representable             div_types      div_types            div_types
+#     float32 / complex64 generic (reduced precision)       div_types      div_types            div_types
+#   1 partition: list / tuple / int64 array / range /       div_partition  div_partition        div_partition
+#     numpy ints / unsorted (list, tuple, array) / None /
+#     key absent / the complement
+#   1 lr: int / numpy int64 / None / 0 / absent / > rank /  div_lr         div_lr               div_lr
+#     power of two or not (r' = next power of two)
+#   2 Schmidt spectrum heavy head + light tail, all equal,  div_scale      div_scale (+gen_tasks: div_scale
+#     repeated, product; amplitudes heavy head + light                     small-tail, repeated,
+#     tail (start / end / mixed), sparse, one amplitude                    basis, ghz, w)
+#     (also at the last index), norm in one half
+#   3 all-negative reals, purely imaginary, global phase    div_phase      div_phase            div_phase
+#     -1 / i / -i, per-entry phases +-1 / +-i
+#   4 opt_params None / {} / one key at a time / every key  div_calls      div_calls            div_calls
+#     non-default / every value None; positional and
+#     keyword calls; label=
+#   4 host of several registers in different orders;        -              div_calls (register  div_calls (ints, tuple, numpy
+#     qubits as ints / Qubit objects / mixed / register                    orders)              ints, range, Qubit objects,
+#     slices / a whole register; idle host qubits in a                                          mixed, slices, register)
+#     non-trivial state
+#   4 same dict object (and same state object) reused with  div_calls      div_calls            div_calls
+#     changed contents; gate appended twice; copy() before  (twice / copy / inverse / to_gate / to_instruction are forms
+#     .definition; inverse(); definition.to_gate() /         of the constructed gate, placed on a permuted host)
+#     to_instruction()
+#   5 n = 1 (no bipartition), n = 2 ([0], [1]), n = 3       div_sizes      div_sizes (+gen_tasks: div_sizes
+#     (1|2, 2|1), n = 4 (2|2, 1|3, 3|1), n = 5; lr 0..5;                   every subset, n <= 5)
+#     default partition at n = 2..5
+#
+# Tie (Drivers/C07.lean, op "plan"): every case with n >= 2 that constructs a gate through ctor / static / copy / reuse also
+# has the plan of THAT gate object (for the static helper: the object found in the host circuit) observed and diffed
+# against the model, which is asked about the canonical values (partition as a list of ints in the given order, lr as an
+# int, None / absent options by their documented defaults).  The model does not cover: the dtype / container of the state
+# (the plan only depends on its Schmidt spectrum), the wires of a host, idle qubits, twice / inverse / to_gate, n = 1
+# - those are oracle only.
+# Oracle per prepared state: squared norm 1; fidelity = sum of the r' largest squared Schmidt coefficients; Schmidt
+# spectrum of the PREPARED state across the partition = the renormalised r' largest coefficients (rank and weights: unique
+# also when coefficients are tied); entry-wise equal to the target when r' >= Schmidt rank (global phase included) and to
+# the independent normalised truncation when the cut is not inside a cluster (gap > 1e-6); on a host: product with the
+# untouched idle-qubit state, gate on the listed wires in the listed order; inputs (state, opt_params, qubit list) not
+# modified.  Tolerance 1e-7; generic float32 / complex64 inputs: ValueError "Sum of amplitudes-squared does not equal
+# one." (the documented rejection) or correct for the normalised up-cast input to 1e-5.
+# ---------------------------------------------------------------------------------------------
+
+DIV_GAP = 1e-6
+DIV_KEYS_ALL = ("lr", "partition", "iso_scheme", "unitary_scheme", "svd")
+DIV_REDUCED = ("f32", "c64")
+
+
+def div_state(spec):
+    """The state in the container / element type named by spec['etype'], from the canonical complex128 values."""
+    vc = np.array(spec["re"], dtype=float) + 1j * np.array(spec["im"], dtype=float)
+    et = spec["etype"]
+    isreal = not np.any(vc.imag != 0)
+    if et == "c128":
+        return vc.copy()
+    if et == "czero":             # complex dtype, imaginary parts exactly +0.0
+        return np.array([complex(x.real, 0.0) for x in vc], dtype=np.complex128)
+    if et == "f64":
+        return vc.real.copy()
+    if et in ("f32", "f32-exact"):
+        return vc.real.astype(np.float32)
+    if et in ("c64", "c64-exact"):
+        return vc.astype(np.complex64)
+    if et == "i64":
+        return np.array([int(round(x)) for x in vc.real], dtype=np.int64)
+    if et == "intlist":
+        return [int(round(x)) for x in vc.real]
+    if et == "inttuple":
+        return tuple(int(round(x)) for x in vc.real)
+    if et == "floatlist":
+        return [float(x) for x in vc.real]
+    if et == "complexlist":
+        return [complex(x) for x in vc]
+    if et == "tuple":
+        return tuple(float(x.real) for x in vc) if isreal else tuple(complex(x) for x in vc)
+    if et == "npscalars":         # a plain list of numpy scalars of mixed kinds
+        out = []
+        for i, x in enumerate(vc):
+            if x.imag != 0:
+                out.append(np.complex128(x))
+            elif float(x.real).is_integer() and i % 2 == 0:
+                out.append(np.int64(int(x.real)))
+            elif i % 3 == 0:
+                out.append(np.complex128(x))
+            else:
+                out.append(np.float64(x.real))
+        return out
+    if et == "negzero":           # every zero (entry, real part, imaginary part) is a NEGATIVE zero
+        if isreal:
+            return np.array([(-0.0 if x == 0 else float(x)) for x in vc.real], dtype=np.float64)
+        return np.array([complex(-0.0 if x.real == 0 else x.real, -0.0 if x.imag == 0 else x.imag) for x in vc],
+                        dtype=np.complex128)
+    if et == "negzero-c":         # real data in a complex array whose imaginary parts are all -0.0
+        return np.array([complex(-0.0 if x == 0 else float(x), -0.0) for x in vc.real], dtype=np.complex128)
+    raise KeyError(et)
+
+
+def div_part_obj(part, ptype):
+    part = [int(a) for a in part]
+    if ptype == "list":
+        return list(part)
+    if ptype == "tuple":
+        return tuple(part)
+    if ptype == "ndarray":
+        return np.array(part, dtype=np.int64)
+    if ptype == "npints":
+        return [np.int64(a) for a in part]
+    if ptype == "range":
+        r = range(part[0], part[-1] + 1)
+        assert list(r) == part
+        return r
+    if ptype == "none":
+        return None
+    raise KeyError(ptype)
+
+
+def div_lr_obj(lr, lrtype):
+    if lrtype == "int":
+        return int(lr)
+    if lrtype == "np.int64":
+        return np.int64(lr)
+    if lrtype == "none":
+        return None
+    raise KeyError(lrtype)
+
+
+def div_opts(o):
+    """opt_params as handed to the real code; o['keys'] = None -> no dictionary, otherwise exactly these keys in this order."""
+    if o.get("keys") is None:
+        return None
+    d = {}
+    for k in o["keys"]:
+        if k == "lr":
+            d[k] = div_lr_obj(o.get("lr", 0), o.get("lrtype", "int"))
+        elif k == "partition":
+            d[k] = div_part_obj(o["partition"], o.get("ptype", "list")) if o.get("ptype") != "none" else None
+        elif k == "iso_scheme":
+            d[k] = o.get("iso")
+        elif k == "unitary_scheme":
+            d[k] = o.get("uni")
+        elif k == "svd":
+            d[k] = o.get("svd")
+        else:
+            raise KeyError(k)
+    return d
+
+
+def div_canon(o, n):
+    """What the options MEAN (documented defaults for absent / None entries): partition list, lr, iso, uni."""
+    keys = o.get("keys") or []
+    part = [int(a) for a in o["partition"]] if ("partition" in keys and o.get("ptype") != "none") else default_partition(n)
+    lr = int(o.get("lr", 0)) if ("lr" in keys and o.get("lrtype") != "none") else 0
+    iso = o["iso"] if ("iso_scheme" in keys and o.get("iso")) else "ccd"
+    uni = o["uni"] if ("unitary_scheme" in keys and o.get("uni")) else "qsd"
+    return part, lr, iso, uni
+
+
+def div_snapshot(x):
+    """Structure + values + element types of a caller-owned object, to see whether the library modified it."""
+    if isinstance(x, dict):
+        return ("dict", [(k, div_snapshot(v)) for k, v in x.items()])
+    if isinstance(x, np.ndarray):
+        return ("nd", str(x.dtype), x.shape, x.tobytes())
+    if isinstance(x, (list, tuple)):
+        return (type(x).__name__, [div_snapshot(v) for v in x])
+    if isinstance(x, range):
+        return ("range", x.start, x.stop, x.step)
+    if isinstance(x, np.generic):
+        return (type(x).__name__, x.tobytes())
+    if isinstance(x, float):
+        return ("float", x.hex())
+    if isinstance(x, complex):
+        return ("complex", x.real.hex(), x.imag.hex())
+    return (type(x).__name__, repr(x))
+
+
+def div_host(h, n):
+    """Host circuit from its JSON description: registers in the given order, every idle wire rotated into a non-trivial
+    state; the qubit specifier in the requested form; the wires (global indices) the gate qubits must land on, in order."""
+    from qiskit import QuantumCircuit, QuantumRegister
+    regs = [QuantumRegister(int(sz), nm) for nm, sz in h["regs"]]
+    qc = QuantumCircuit(*regs)
+    byname = {r.name: r for r in regs}
+    offs, o = {}, 0
+    for r in regs:
+        offs[r.name] = o
+        o += r.size
+    width = o
+    qform = h["qform"]
+
+    def conv(wires, form):
+        if form == "ints":
+            return [int(w) for w in wires]
+        if form == "tuple":
+            return tuple(int(w) for w in wires)
+        if form == "npints":
+            return [np.int64(w) for w in wires]
+        if form == "ndarray":
+            return np.array(wires, dtype=np.int64)
+        if form == "range":
+            r = range(wires[0], wires[-1] + 1)
+            assert list(r) == list(wires)
+            return r
+        if form == "qubits":
+            return [qc.qubits[w] for w in wires]
+        if form == "qubit-tuple":
+            return tuple(qc.qubits[w] for w in wires)
+        if form == "mixed":
+            return [qc.qubits[w] if i % 2 == 0 else int(w) for i, w in enumerate(wires)]
+        raise KeyError(form)
+
+    if qform == "none":
+        wires, qobj = list(range(width)), None
+    elif qform == "register":
+        r = byname[h["register"]]
+        wires, qobj = [offs[r.name] + i for i in range(r.size)], r
+    elif qform == "slices":
+        wires, qobj = [], []
+        for nm, a, b in h["slices"]:
+            qobj = qobj + byname[nm][a:b]
+            wires += [offs[nm] + i for i in range(a, b)]
+    else:
+        wires = [int(w) for w in h["qubits"]]
+        qobj = conv(wires, qform)
+    assert len(wires) == n and len(set(wires)) == n, (wires, n)
+    wires2, qobj2 = None, None
+    if h.get("qubits2") is not None:
+        wires2 = [int(w) for w in h["qubits2"]]
+        qobj2 = conv(wires2, "ints" if qform in ("none", "register", "slices", "range") else qform)
+    used = set(wires) | set(wires2 or [])
+    idle = {}
+    for w in range(width):
+        if w not in used:
+            th, ph = h["idle"][w]
+            qc.ry(th, w)
+            qc.rz(ph, w)
+            idle[w] = np.array([math.cos(th / 2) * np.exp(-0.5j * ph), math.sin(th / 2) * np.exp(0.5j * ph)])
+    return qc, qobj, wires, qobj2, wires2, idle, width
+
+
+def div_contract(full, width, wires, rest):
+    """<rest| full> on the wires `wires` (gate qubit j = wires[j]); rest = {wire: one-qubit state} for all other wires."""
+    n = len(wires)
+    sv = np.zeros(2 ** n, dtype=complex)
+    others = sorted(rest)
+    for i in range(2 ** width):
+        a = full[i]
+        if a == 0:
+            continue
+        for w in others:
+            a = a * np.conj(rest[w][(i >> w) & 1])
+        k = 0
+        for j in range(n):
+            k |= ((i >> wires[j]) & 1) << j
+        sv[k] += a
+    return sv
+
+
+def div_embed(width, placements, idle):
+    """Host state: vec on its wires (vector index bit j = wires[j]) for every placement, times the idle one-qubit states."""
+    full = np.zeros(2 ** width, dtype=complex)
+    for i in range(2 ** width):
+        a = 1.0 + 0j
+        for wires, vec in placements:
+            k = 0
+            for j, w in enumerate(wires):
+                k |= ((i >> w) & 1) << j
+            a = a * vec[k]
+        for w, st in idle.items():
+            a = a * st[(i >> w) & 1]
+        full[i] = a
+    return full
+
+
+def div_truncation(vc, n, part, lr):
+    """(the state the property demands or None where it is not unique, sum of the r' largest squared coefficients)."""
+    from props import c09
+    if n < 2:
+        return np.asarray(vc, dtype=complex), 1.0
+    sp = sorted(part)
+    uu, ss, vv = np.linalg.svd(c09.ref_sep(n, np.asarray(vc, dtype=complex), sp), full_matrices=False)
+    eff = int((ss > 1e-7).sum())
+    want = c09.clp2(lr if 0 < lr < eff else eff)
+    kept = float((ss[:want] ** 2).sum())
+    if want >= eff:
+        return np.asarray(vc, dtype=complex), kept
+    if ss[want - 1] - ss[want] <= DIV_GAP:
+        return None, kept
+    t = (uu[:, :want] * ss[:want]) @ vv[:want]
+    return c09.ref_undo(n, t / np.linalg.norm(t), sp), kept
+
+
+def div_check(sv, vc, n, part, lr, tol, band, tag=""):
+    """Problems of ONE prepared state against the property (None: a Schmidt coefficient inside the excluded band)."""
+    from props import c09
+    problems = []
+    nrm = float(np.vdot(sv, sv).real)
+    if abs(nrm - 1) > tol:
+        problems.append(f"{tag}prepared state has squared norm {nrm:.9f} (on a host: not a product with the idle-qubit state)")
+    if n < 2:
+        err = float(np.abs(sv - vc).max())
+        if err > tol:
+            problems.append(f"{tag}one-qubit state differs from the target by {err:.2e}")
+        return problems, {"rank": 1, "eff": 1, "truncated": False}
+    sp = sorted(part)
+    uu, ss, vv = np.linalg.svd(c09.ref_sep(n, np.asarray(vc, dtype=complex), sp), full_matrices=False)
+    if any(band[0] <= x <= band[1] for x in ss):
+        return None, {}
+    eff = int((ss > 1e-7).sum())
+    want = c09.clp2(lr if 0 < lr < eff else eff)
+    kept = float((ss[:want] ** 2).sum())
+    fid = float(abs(np.vdot(vc, sv)) ** 2)
+    if abs(fid - kept) > tol:
+        problems.append(f"{tag}fidelity {fid:.9f} != sum of the {want} largest squared Schmidt coefficients {kept:.9f} (eff={eff})")
+    got = np.linalg.svd(c09.ref_sep(n, np.asarray(sv, dtype=complex), sp), compute_uv=False)
+    exp = np.zeros_like(got)
+    exp[:want] = ss[:want] / math.sqrt(kept)
+    if float(np.abs(got - exp).max()) > tol:
+        problems.append(f"{tag}Schmidt spectrum of the prepared state {np.round(got, 8).tolist()} differs from the renormalised "
+                        f"{want} largest coefficients {np.round(exp, 8).tolist()}")
+    if want >= eff:
+        err = float(np.abs(sv - vc).max())
+        if err > tol:
+            problems.append(f"{tag}rank {want} >= Schmidt rank {eff} but prepared state differs from the target by {err:.2e}")
+    elif ss[want - 1] - ss[want] > DIV_GAP:
+        t = (uu[:, :want] * ss[:want]) @ vv[:want]
+        t = c09.ref_undo(n, t / np.linalg.norm(t), sp)
+        err = float(np.abs(sv - t).max())
+        if err > tol:
+            problems.append(f"{tag}prepared state differs from the independent rank-{want} truncation by {err:.2e}")
+    return problems, {"rank": want, "eff": eff, "fid": fid, "truncated": want < eff}
+
+
+def div_call(spec, state, opts, vc, simulate=True):
+    """Executes the call form on the real code.  Returns (gates, obs, problems): gates = [(gate object, options meaning)]
+    in construction order (for the tie), obs = [(tag, prepared state on the gate qubits, options meaning)]."""
+    from qiskit import QuantumCircuit
+    from qiskit.quantum_info import Statevector
+    from qclib.state_preparation import LowRankInitialize
+    n, call = spec["n"], spec["call"]
+    canon = div_canon(spec, n)
+    gates, obs, problems, hint = [], [], [], []
+
+    def sim(circ):
+        return Statevector(circ).data if simulate else None
+
+    def on_host(h, place, tag, canon_, expect_zero=False):
+        """`place(qc, qobj, qobj2)` puts the gate(s) on the host; returns the gate found on the listed wires."""
+        qc, qobj, wires, qobj2, wires2, idle, width = div_host(h, n)
+        snap = div_snapshot(qobj), div_snapshot(qobj2)
+        before = len(qc.data)
+        place(qc, qobj, qobj2)
+        if (div_snapshot(qobj), div_snapshot(qobj2)) != snap:
+            problems.append(f"{tag}the caller's qubit list was modified")
+        new = qc.data[before:]
+        got = [[qc.find_bit(q).index for q in inst.qubits] for inst in new]
+        want_wires = [wires] + ([wires2] if wires2 is not None else [])
+        if expect_zero:
+            want_wires = [wires, wires]
+        if simulate:
+            full = Statevector(qc).data
+            if expect_zero:
+                e0 = {w: np.array([1.0, 0.0]) for w in wires}
+                amp = div_contract(full, width, [], {**idle, **e0})[0]
+                if abs(abs(amp) - 1) > 1e-7 or abs(amp - 1) > 1e-7:
+                    problems.append(f"{tag}gate followed by its inverse() leaves amplitude {complex(amp):.9f} on |0..0> x idle state")
+            elif wires2 is None:
+                obs.append((tag, div_contract(full, width, wires, idle), canon_))
+            else:
+                # two placements of ONE gate object: the host must carry t (x) t (x) idle, t = the (unique) state the gate
+                # prepares according to the property; where the truncation is not unique only the fidelity is compared
+                part, lr, _, _ = canon_
+                t, kept = div_truncation(vc, n, part, lr)
+                if t is not None:
+                    err = float(np.abs(full - div_embed(width, [(wires, t), (wires2, t)], idle)).max())
+                    if err > 1e-7:
+                        problems.append(f"{tag}host state differs from t (x) t (x) idle by {err:.2e} (one gate object on wires "
+                                        f"{wires} and {wires2})")
+                fid = float(abs(np.vdot(div_embed(width, [(wires, vc), (wires2, vc)], idle), full)) ** 2)
+                if abs(fid - kept ** 2) > 1e-7:
+                    problems.append(f"{tag}fidelity of the two placements {fid:.9f} != {kept ** 2:.9f}")
+        if got != want_wires:       # not judged by itself (an equivalent placement is fine): said when the state is wrong
+            hint.append(f"{tag}appended on wires {got}, requested {want_wires}")
+        return [inst.operation for inst in new]
+
+    if call in ("ctor", "ctor-positional", "ctor-kw", "ctor-bare"):
+        if call == "ctor":
+            g = LowRankInitialize(state, opt_params=opts)
+        elif call == "ctor-positional":
+            g = LowRankInitialize(state, spec.get("label"), opts)
+        elif call == "ctor-kw":
+            g = LowRankInitialize(opt_params=opts, label=spec.get("label"), params=state)
+        else:
+            assert opts is None
+            g = LowRankInitialize(state)
+        want_label = spec.get("label") if call in ("ctor-positional", "ctor-kw") and spec.get("label") is not None else "LRSP"
+        if g.label != want_label:
+            problems.append(f"label {want_label!r} expected, gate.label = {g.label!r}")
+        gates.append((g, canon))
+        obs.append(("", sim(g.definition), canon))
+    elif call in ("static", "static-positional", "static-bare"):
+        def place(qc, qobj, _):
+            if call == "static":
+                LowRankInitialize.initialize(qc, state, qubits=qobj, opt_params=opts)
+            elif call == "static-positional":
+                LowRankInitialize.initialize(qc, state, qobj, opts)
+            else:
+                assert opts is None and qobj is None
+                LowRankInitialize.initialize(qc, state)
+        ops = on_host(spec["host"], place, "", canon)
+        if len(ops) == 1 and isinstance(ops[0], LowRankInitialize):
+            gates.append((ops[0], canon))
+        else:                       # nothing to observe for the tie; the prepared state is judged all the same
+            hint.append(f"initialize appended {[type(o).__name__ for o in ops]}, not one LowRankInitialize")
+    elif call in ("to_gate", "to_instruction"):
+        g = LowRankInitialize(state, opt_params=opts)
+        gates.append((g, canon))
+        sub = g.definition.to_gate() if call == "to_gate" else g.definition.to_instruction()
+        on_host(spec["host"], lambda qc, qobj, _: qc.append(sub, qobj), "", canon)
+    elif call == "twice":
+        g = LowRankInitialize(state, opt_params=opts)
+        gates.append((g, canon))
+
+        def place(qc, qobj, qobj2):
+            qc.append(g, qobj)
+            qc.append(g, qobj2)
+        on_host(spec["host"], place, "", canon)
+    elif call == "copy":
+        g = LowRankInitialize(state, label=spec.get("label"), opt_params=opts)
+        g2 = g.copy()                      # before .definition was ever read
+        if g2.label != g.label:
+            problems.append(f"copy() changed the label {g.label!r} -> {g2.label!r}")
+        gates.append((g2, canon))
+        obs.append(("copy: ", sim(g2.definition), canon))
+        obs.append(("original after the copy was used: ", sim(g.definition), canon))
+        g3 = g.copy()                      # after .definition was read
+        on_host(spec["host"], lambda qc, qobj, _: qc.append(g3, qobj), "second copy on a host: ", canon)
+    elif call == "inverse":
+        g = LowRankInitialize(state, label=spec.get("label"), opt_params=opts)
+        gi = g.inverse()
+        base = spec.get("label") if spec.get("label") is not None else "LRSP"
+        if gi.label != base + "_dg" or g.label != base:
+            problems.append(f"labels after inverse(): gate {g.label!r}, inverse {gi.label!r} (expected {base!r}, {base + '_dg'!r})")
+        gates.append((g, canon))
+        obs.append(("gate after inverse() was taken: ", sim(g.definition), canon))
+
+        def place(qc, qobj, _):
+            qc.append(g, qobj)
+            qc.append(gi, qobj)
+        on_host(spec["host"], place, "", canon, expect_zero=True)
+        if simulate and n >= 1:
+            # the inverse maps the prepared state back: evolve the gate's own output
+            back = Statevector(obs[-1][1]).evolve(gi.definition).data
+            if abs(back[0] - 1) > 1e-7:
+                problems.append(f"inverse().definition maps the prepared state to amplitude {complex(back[0]):.9f} on |0..0>")
+    elif call == "reuse":
+        # ONE dict object (and one state object) for two consecutive constructions, contents changed in between
+        sec = spec["second"]
+        canon2 = div_canon(sec, n)
+        d = opts
+        g1 = LowRankInitialize(state, opt_params=d)
+        snap1 = div_snapshot(d)
+        sv1_early = sim(g1.definition) if spec.get("read_between") else None
+        if div_snapshot(d) != snap1:
+            problems.append("the caller's opt_params was modified by the first construction / definition")
+        new = div_opts(sec)
+        d.clear()
+        d.update(new)
+        snap2 = div_snapshot(d)
+        h = spec.get("host")
+        if h is None:
+            g2 = LowRankInitialize(state, opt_params=d)
+            obs.append(("second construction with the reused dict: ", sim(g2.definition), canon2))
+        else:
+            ops = on_host(h, lambda qc, qobj, _: LowRankInitialize.initialize(qc, state, qubits=qobj, opt_params=d),
+                          "second call (static, reused dict): ", canon2)
+            g2 = ops[0]
+        obs.append(("first construction (dict changed afterwards): ", sim(g1.definition) if sv1_early is None else sv1_early, canon))
+        if div_snapshot(d) != snap2:
+            problems.append("the caller's opt_params was modified by the second construction / definition")
+        gates.append((g1, canon))
+        if isinstance(g2, LowRankInitialize):
+            gates.append((g2, canon2))
+    else:
+        raise KeyError(call)
+    return gates, obs, problems, hint
+
+
+def div_eval(spec):
+    """Runs in a worker process.  Returns (key, problems, info); problems None = skipped (excluded band)."""
+    import sys
+    repo = spec["repo"]
+    if repo not in sys.path:
+        sys.path.insert(0, repo)
+    n = spec["n"]
+    state = div_state(spec)
+    vc = np.asarray(state, dtype=complex).reshape(-1)
+    reduced = spec["etype"] in DIV_REDUCED
+    tol = 1e-5 if reduced else 1e-7
+    if reduced:
+        vc = vc / np.linalg.norm(vc)
+    else:
+        want = np.array(spec["re"], dtype=float) + 1j * np.array(spec["im"], dtype=float)
+        if not np.array_equal(vc, want):
+            return spec["key"], [f"internal: the {spec['etype']} form does not carry the canonical values exactly"], {}
+    band = spec.get("band") or NARROW_BAND
+    opts = div_opts(spec)
+    snap_state, snap_opts = div_snapshot(state), div_snapshot(opts)
+    want_tie = bool(spec.get("tie")) and n >= 2 and spec["call"] in DIV_TIE_CALLS
+    try:
+        gates, obs, problems, hint = div_call(spec, state, opts, vc)
+    except Exception as ex:
+        if reduced and isinstance(ex, ValueError) and "amplitudes-squared does not equal one" in str(ex):
+            return spec["key"], [], {"rejected": True}
+        if (spec.get("host") or {}).get("qform") == "ndarray" and isinstance(ex, (ValueError, TypeError)):
+            # a numpy array as qubit specifier: qiskit's append does not take it (nothing in qclib claims it) - recorded only
+            return spec["key"], [], {"unsupported": type(ex).__name__}
+        return spec["key"], [f"raised {type(ex).__name__}: {str(ex)[:200]}"], {"ties": div_tie_lines(spec, None, vc) if want_tie else []}
+    if div_snapshot(state) != snap_state:
+        problems.append("the caller's state object was modified")
+    if spec["call"] != "reuse" and div_snapshot(opts) != snap_opts:
+        problems.append("the caller's opt_params was modified")
+    info = {}
+    for tag, sv, (part, lr, iso, uni) in obs:
+        p, inf = div_check(sv, vc, n, part, lr, tol, band, tag)
+        if p is None:
+            return spec["key"], None, {"skipped": True}
+        problems += p
+        info = info or inf
+    if problems and hint:
+        problems += ["(" + x + ")" for x in hint]
+    if want_tie:
+        try:
+            info["ties"] = div_tie_lines(spec, gates, vc)
+        except Exception as ex:     # an exception of the observer itself must not look like a violation
+            info["ties"] = []
+            info["tie_error"] = f"{type(ex).__name__}: {str(ex)[:120]}"
+    if problems and all("differs from" in p for p in problems) and n >= 2 and not spec.get("_no_a2"):
+        # state off although norm and fidelity are right: the known precision loss of qiskit's A.2 pass inside the encoders
+        # (K-C07-1)?  Only if (a) an encoder called by _encode does not reproduce its own matrix AND (b) the very same case
+        # has no problem at all once qclib.unitary._apply_a2 is replaced by the identity (harness-side patch) - a defect of
+        # lowrank.py / entanglement.py on a light-tail state survives (b) and stays an ordinary failure.
+        try:
+            from unittest import mock
+            import qclib.unitary as qu
+            part, lr, iso, uni = div_canon(spec, n)
+            aud = audit_encoders(vc, n, {"lr": lr, "partition": part, "iso_scheme": iso, "unitary_scheme": uni})
+            worst = max(aud, key=lambda a: a[3]) if aud else None
+            if worst and worst[3] > 1e-8:
+                with mock.patch.object(qu, "_apply_a2", lambda circuit: circuit):
+                    _, p2, _ = div_eval(dict(spec, tie=False, _no_a2=True))
+                if p2 == []:
+                    info["encoder_blame"] = {"kind": worst[0], "rows": worst[1], "cols": worst[2], "err": worst[3]}
+        except Exception:
+            pass
+    return spec["key"], problems, info
+
+
+def div_spec(fam, name, n, v, *, etype="c128", partition=None, ptype="list", lr=0, lrtype="int", keys=("lr", "partition"),
+             iso=None, uni=None, svd=None, call="ctor", host=None, label=None, second=None, read_between=False, band=None):
+    import framework
+    v = np.asarray(v)
+    keys = None if keys is None else list(keys)
+    part = None if partition is None else [int(a) for a in partition]
+    kk = "none" if keys is None else ("{}" if not keys else "+".join(k.split("_")[0] for k in keys))
+    hh = ""
+    if host is not None:
+        hh = ":host=" + "".join(f"{nm}{sz}" for nm, sz in host["regs"]) + "/" + host["qform"]
+        if host.get("qubits") is not None and host["qform"] != "none":
+            hh += "[" + ",".join(map(str, host["qubits"])) + "]"
+        if host.get("qubits2") is not None:
+            hh += "+[" + ",".join(map(str, host["qubits2"])) + "]"
+        if host.get("slices") is not None:
+            hh += "[" + ",".join(f"{a}{b}:{c}" for a, b, c in host["slices"]) + "]"
+        if host.get("register") is not None:
+            hh += "[" + host["register"] + "]"
+    key = (f"div:{fam}:{name}:n={n}:{etype}:P={'-' if part is None else ','.join(map(str, part))}/{ptype}:lr={lr}/{lrtype}:"
+           f"opts={kk}:{iso or '-'}/{uni or '-'}/{svd or '-'}:{call}{hh}")
+    if second is not None:
+        key += f":then-lr={second.get('lr')}:P={','.join(map(str, second.get('partition') or []))}"
+    return {"div": True, "repo": framework.REPO, "fam": fam, "name": name, "n": int(n), "key": key,
+            "re": [float(x) for x in np.real(v)], "im": [float(x) for x in np.imag(v)], "etype": etype,
+            "partition": part, "ptype": ptype, "lr": None if lr is None else int(lr), "lrtype": lrtype, "keys": keys,
+            "iso": iso, "uni": uni, "svd": svd, "call": call, "host": host, "label": label, "second": second,
+            "read_between": bool(read_between), "band": None if band is None else list(band)}
+
+
+# ---- hosts ----------------------------------------------------------------------------------------------------------
+
+def div_idle(ctx, width):
+    return [[round(ctx.rng.uniform(0.4, 2.6), 6), round(ctx.rng.uniform(-3.0, 3.0), 6)] for _ in range(width)]
+
+
+def div_regs(ctx, width, nregs=None):
+    """`width` qubits split into 1-3 registers whose NAMES are not in circuit order (the circuit order is what counts)."""
+    nregs = nregs or ctx.rng.choice([1, 2, 3])
+    nregs = min(nregs, width)
+    cuts = sorted(ctx.rng.sample(range(1, width), nregs - 1)) if nregs > 1 else []
+    sizes = [b - a for a, b in zip([0] + cuts, cuts + [width])]
+    names = ["a", "b", "c"][:nregs]
+    ctx.rng.shuffle(names)
+    return [[nm, sz] for nm, sz in zip(names, sizes)]
+
+
+def host_none(ctx, n, nregs=None):
+    """qubits=None: the host has exactly n qubits (one register, or several registers in a scrambled name order)."""
+    return {"regs": div_regs(ctx, n, nregs or ctx.rng.choice([1, 2])), "qform": "none", "qubits": None, "idle": div_idle(ctx, n)}
+
+
+def host_perm(ctx, n, qform=None, extra=2, second=False):
+    """A larger host and a permuted, non-ascending, non-contiguous wire list for the n gate qubits."""
+    width = (2 * n if second else n) + extra
+    for _ in range(500):
+        wires = ctx.rng.sample(range(width), n)
+        if n == 1:
+            ok = wires[0] != 0
+        else:
+            ok = wires != sorted(wires) and max(wires) - min(wires) != n - 1
+            if n >= 3:
+                ok = ok and wires != sorted(wires, reverse=True)
+        if ok:
+            break
+    h = {"regs": div_regs(ctx, width), "qform": qform or ctx.rng.choice(["ints", "qubits"]), "qubits": wires,
+         "idle": div_idle(ctx, width)}
+    if second:
+        rest = [w for w in range(width) if w not in wires]
+        h["qubits2"] = ctx.rng.sample(rest, n)
+    return h
+
+
+def div_entries(ctx, n, qform=None):
+    """The three ways a state reaches the code: constructor + .definition, static helper with qubits=None, static helper
+    with an explicit permuted wire list on a larger host."""
+    return [("ctor", None), ("static", host_none(ctx, n)), ("static", host_perm(ctx, n, qform))]
+
+
+def div_cross(ctx, out, fam, name, n, v, entries=None, **kw):
+    for call, host in (entries if entries is not None else div_entries(ctx, n)):
+        out.append(div_spec(fam, name, n, v, call=call, host=host, **kw))
+        ctx.count(f"diversity:{fam}:{call}" + ("" if host is None else ":qubits=" + ("None" if host["qform"] == "none" else "list")))
+
+
+def div_nondefault_partition(ctx, n):
+    """A proper subset that is NOT the default first-ceil(n/2)-qubits partition (nor its complement where avoidable)."""
+    dp = default_partition(n)
+    for _ in range(100):
+        k = ctx.rng.randint(1, n - 1)
+        p = sorted(ctx.rng.sample(range(n), k))
+        if p != dp and (n <= 2 or sorted(set(range(n)) - set(p)) != dp):
+            return p
+    return [n - 1]
+
+
+# ---- family 1: element types ----------------------------------------------------------------------------------------
+
+def div_types(ctx):
+    from props import c09
+    rng = ctx.nprng()
+    out = []
+    for n in (2, 3, 4):
+        d = 2 ** n
+        part = div_nondefault_partition(ctx, n)
+        # integer amplitudes: basis states (first / inner / LAST index, sign -1)
+        for idx, sgn in ((ctx.rng.randrange(1, d - 1), 1), (d - 1, -1), (0, -1)):
+            e = np.zeros(d)
+            e[idx] = sgn
+            for et in ("intlist", "inttuple", "i64", "npscalars", "negzero", "negzero-c", "f32-exact"):
+                for lr in (1,):
+                    div_cross(ctx, out, "types", f"basis{idx}{'+' if sgn > 0 else '-'}", n, e, etype=et, partition=part, lr=lr)
+        # exactly representable in float32 / complex64: moduli 1/2, 1/4 whose squares sum to 1, phases +-1 / +-i
+        patterns = {4: [[0.5] * 4], 8: [[0.5] * 4, [0.5] * 3 + [0.25] * 4], 16: [[0.25] * 16, [0.5] * 2 + [0.25] * 8]}[d]
+        for real in (True, False):
+            for mod in (ctx.rng.choice(patterns),):
+                pos = ctx.rng.sample(range(d), len(mod))
+                ph = [ctx.rng.choice([1, -1] if real else [1, -1, 1j, -1j]) for _ in pos]
+                ph[0] = -1
+                if not real:
+                    ph[-1] = ctx.rng.choice([1j, -1j])
+                v = np.zeros(d, dtype=complex)
+                v[pos] = np.array(ph) * np.array(mod)
+                ets = ("f32-exact", "f64", "floatlist", "tuple", "npscalars", "czero", "negzero", "negzero-c") if real else \
+                      ("c64-exact", "c128", "complexlist", "tuple", "npscalars", "negzero")
+                for et in ets:
+                    for lr in (0, 1):
+                        div_cross(ctx, out, "types", f"dyadic{'R' if real else 'C'}{len(mod)}", n, v, etype=et, partition=part, lr=lr)
+        # generic vectors: real with negative entries / complex, in every container; reduced precision
+        vr = c09.rand_unit(rng, d, real=True)
+        if not (vr < 0).any():
+            vr[0] = -vr[0]
+        vz = c09.rand_unit(rng, d)
+        for v, ets in ((vr, ("f64", "floatlist", "tuple", "npscalars", "czero", "negzero-c", "f32")),
+                       (vz, ("c128", "complexlist", "tuple", "npscalars", "c64"))):
+            for et in ets:
+                for lr in (0, 1):
+                    div_cross(ctx, out, "types", "generic" + ("R" if v is vr else "C"), n, v, etype=et, partition=part, lr=lr)
+        # real, sparse (exact zeros -> negative zeros), entangled
+        vs = np.zeros(d)
+        pos = ctx.rng.sample(range(d), 3 if d > 4 else 2)
+        vs[pos] = c09.rand_unit(rng, len(pos), real=True)
+        for et in ("f64", "negzero", "negzero-c", "floatlist"):
+            for lr in (0, 1):
+                div_cross(ctx, out, "types", "sparseR", n, vs, etype=et, partition=part, lr=lr)
+    return out
+
+
+def div_partition(ctx):
+    """The container / order of `partition` (the code takes it as a SET: sorted first)."""
+    from props import c09
+    rng = ctx.nprng()
+    out = []
+    for n in (3, 4, 5):
+        v = c09.rand_unit(rng, 2 ** n)
+        mid = ctx.rng.randint(1, n - 2)
+        contiguous = list(range(mid, min(n, mid + 2)))                      # a range that is not the default
+        if contiguous == default_partition(n):
+            contiguous = list(range(1, 2))
+        sets = [contiguous, sorted(ctx.rng.sample(range(n), 2))]
+        if n >= 4:
+            sets.append(sorted(ctx.rng.sample(range(n), 3)))
+        for p in sets:
+            uns = list(p)
+            while len(p) > 1 and uns == sorted(uns):
+                ctx.rng.shuffle(uns)
+            comp = sorted(set(range(n)) - set(p))
+            forms = [("list", p), ("tuple", p), ("ndarray", p), ("npints", p), ("list", uns), ("tuple", uns), ("ndarray", uns),
+                     ("npints", uns), ("list", comp), ("tuple", comp[::-1])]
+            if p == list(range(p[0], p[-1] + 1)):
+                forms.append(("range", p))
+            for ptype, pp in forms:
+                for lr in ((1, 2) if n == 4 else (1,)):
+                    tag = "sorted" if list(pp) == sorted(pp) else "unsorted"
+                    tag = "complement-" + tag if sorted(pp) == comp and comp != p else tag
+                    div_cross(ctx, out, "partition", tag, n, v, partition=pp, ptype=ptype, lr=lr)
+        # None as value / key absent: the default partition
+        for lr in (1, 2):
+            div_cross(ctx, out, "partition", "value-None", n, v, partition=None, ptype="none", lr=lr)
+            div_cross(ctx, out, "partition", "absent", n, v, partition=None, keys=("lr",), lr=lr)
+    return out
+
+
+def div_lr(ctx):
+    """The type and size of `lr` against Schmidt ranks 1..4: int / numpy int64 / None / absent / 0 / above the rank / a
+    power of two or not."""
+    from props import c09
+    rng = ctx.nprng()
+    out = []
+    n = 4
+    first = ctx.rng.choice([[0, 2], [1, 2], [1, 3], [0, 1]])
+    for part in (first,):
+        states = [("rank4", c09.rand_unit(rng, 16)), ("rank3", c09.with_spectrum(rng, n, part, [0.8, 0.5, 0.3])),
+                  ("rank2", c09.with_spectrum(rng, n, part, [0.8, 0.6])), ("rank1", c09.with_spectrum(rng, n, part, [1.0]))]
+        for name, v in states:
+            for lr, lt in ((1, "int"), (2, "int"), (3, "int"), (4, "int"), (5, "int"), (100, "int"), (0, "int"), (1, "np.int64"),
+                           (2, "np.int64"), (3, "np.int64"), (0, "np.int64"), (7, "np.int64"), (None, "none")):
+                div_cross(ctx, out, "lr", name, n, v, partition=part, lr=lr if lr is not None else 0, lrtype=lt)
+            div_cross(ctx, out, "lr", name + "-absent", n, v, partition=part, keys=("partition",))
+    for n, part in ((3, [1]), (5, [0, 3]), (5, [1, 2, 4])):
+        v = c09.rand_unit(rng, 2 ** n)
+        for lr, lt in ((1, "np.int64"), (2, "np.int64"), (3, "int"), (3, "np.int64"), (None, "none")):
+            div_cross(ctx, out, "lr", "generic", n, v, partition=part, lr=lr if lr is not None else 0, lrtype=lt)
+    return out
+
+
+# ---- family 2: scale structure --------------------------------------------------------------------------------------
+
+def div_scale(ctx):
+    from props import c09
+    rng = ctx.nprng()
+    out = []
+
+    def entries(n):
+        return [("ctor", None), ("static", host_perm(ctx, n)), ("static", host_none(ctx, n))]
+
+    # Schmidt coefficients: heavy head + light tail (kept a factor >= 3 away from the 1e-7 rank cut), all equal, repeated
+    spectra = {2: [("head-tail3", [1, 1e-3]), ("head-tail6", [1, 1e-6]), ("head-tail5", [1, 3e-5]), ("equal", [1, 1]), ("product", [1])],
+               4: [("head-tail3456", [1, 1e-3, 1e-4, 1e-6]), ("two-heads-tail", [1, 0.7, 1e-3, 1e-5]), ("head-tail-rank3", [1, 1e-4, 1e-6]),
+                   ("head-equal-tail", [1, 1e-4, 1e-4, 1e-4]), ("equal4", [1, 1, 1, 1]), ("equal3", [1, 1, 1]), ("pairs", [1, 1, 0.3, 0.3]),
+                   ("inner-pair", [0.8, 0.5, 0.5, 0.2]), ("equal2", [1, 1])]}
+    for n, part in ((2, [1]), (3, [1]), (3, [0, 2]), (4, [0, 3]), (4, [1, 2]), (5, [1, 4]), (4, [2])):
+        mind = min(2 ** len(part), 2 ** (n - len(part)))
+        for name, spec in spectra[mind]:
+            if n == 5 and name not in ("head-tail3456", "equal3", "inner-pair"):
+                continue
+            real = ctx.rng.random() < 0.3
+            v = c09.with_spectrum(rng, n, part, spec, real=real)
+            for lr in range(0, min(len(spec), 4) + 1):
+                iso, uni = SCHEMES[(lr + n) % 2]
+                div_cross(ctx, out, "scale", "schmidt-" + name + ("R" if real else ""), n, v, entries=entries(n)[:2 if n == 5 else 3],
+                          partition=part, lr=lr, keys=DIV_KEYS_ALL[:4], iso=iso, uni=uni, etype="f64" if real else "c128")
+    # amplitude vectors with their own scale structure
+    for n in (2, 3, 4):
+        d = 2 ** n
+        amps = []
+        tail = [10.0 ** -ctx.rng.choice([3, 4, 5, 6]) * ctx.rng.choice([1, -1, 1j, -1j]) for _ in range(d)]
+        for name, heads in (("head-start", [0]), ("head-end", [d - 1]), ("head-mixed", [1, d - 2] if d > 4 else [1]),
+                            ("two-heads", [0, d - 1])):
+            v = np.array(tail, dtype=complex)
+            for h in heads:
+                v[h] = ctx.rng.choice([1, -1, 1j]) * ctx.rng.uniform(0.6, 1.0)
+            amps.append((name, v / np.linalg.norm(v)))
+        u = np.array([ctx.rng.choice([1, -1, 1j, -1j]) for _ in range(d)], dtype=complex)
+        amps.append(("equal-moduli", u / math.sqrt(d)))
+        rep = np.array([ctx.rng.choice([0.5, -0.5, 0.25]) for _ in range(d)], dtype=complex)
+        amps.append(("repeated-values", rep / np.linalg.norm(rep)))
+        sp = np.zeros(d, dtype=complex)
+        sp[ctx.rng.sample(range(d), 2)] = c09.rand_unit(rng, 2)
+        amps.append(("sparse2", sp))
+        for idx in (0, d - 1, ctx.rng.randrange(d)):
+            e = np.zeros(d, dtype=complex)
+            e[idx] = ctx.rng.choice([1, -1, 1j, -1j])
+            amps.append((f"single{idx}", e))
+        for half in (0, 1):
+            hv = np.zeros(d, dtype=complex)
+            hv[half * (d // 2):(half + 1) * (d // 2)] = c09.rand_unit(rng, d // 2)
+            amps.append((f"half{half}", hv))
+        lo = np.zeros(d, dtype=complex)
+        lo[::2] = c09.rand_unit(rng, d // 2)                     # norm carried by the sub-tree "lowest qubit = 0"
+        amps.append(("even-indices", lo))
+        parts = [[0]] if n == 2 else ([[0], [0, 2]] if n == 3 else [[0, 1], [1, 3], [3]])
+        for name, v in amps:
+            for part in parts:
+                for lr in ((0, 1, 2) if len(part) == 2 and n == 4 else (0, 1)):
+                    div_cross(ctx, out, "scale", "amp-" + name, n, v, entries=entries(n)[:2], partition=part, lr=lr)
+    return out
+
+
+# ---- family 3: sign / phase structure -------------------------------------------------------------------------------
+
+def div_phase(ctx):
+    from props import c09
+    rng = ctx.nprng()
+    out = []
+    for n in (2, 3, 4):
+        d = 2 ** n
+        part = div_nondefault_partition(ctx, n)
+        base = c09.rand_unit(rng, d)
+        neg = -np.abs(c09.rand_unit(rng, d, real=True))
+        cases = [("all-negative", neg, "f64"), ("all-negative-list", neg, "floatlist"), ("all-negative-czero", neg, "czero"),
+                 ("imaginary", 1j * c09.rand_unit(rng, d, real=True), "c128"), ("imaginary-neg", 1j * neg, "complexlist"),
+                 ("phase-1", -base, "c128"), ("phase+i", 1j * base, "c128"), ("phase-i", -1j * base, "c128"),
+                 ("signs", np.array([ctx.rng.choice([1, -1]) for _ in range(d)]) / math.sqrt(d), "f64"),
+                 ("signs-all-minus", -np.ones(d) / math.sqrt(d), "f64"),
+                 ("units", np.array([ctx.rng.choice([1, -1, 1j, -1j]) for _ in range(d)]) / math.sqrt(d), "c128"),
+                 ("units-generic-moduli", np.abs(base) * np.array([ctx.rng.choice([1, -1, 1j, -1j]) for _ in range(d)]), "c128")]
+        for name, v, et in cases:
+            for lr in ((0, 1, 2) if n == 4 else (0, 1)):
+                iso, uni = SCHEMES[(lr + n) % 2]
+                div_cross(ctx, out, "phase", name, n, v, etype=et, partition=part, lr=lr, keys=DIV_KEYS_ALL[:4], iso=iso, uni=uni)
+            div_cross(ctx, out, "phase", name + "-defaults", n, v, etype=et, keys=None)
+    return out
+
+
+# ---- family 4: call forms -------------------------------------------------------------------------------------------
+
+def div_calls(ctx):
+    from props import c09
+    rng = ctx.nprng()
+    out = []
+
+    def add(name, n, v, call, host, **kw):
+        out.append(div_spec("calls", name, n, v, call=call, host=host, **kw))
+        ctx.count(f"diversity:calls:{name}")
+
+    for n in (2, 3, 4, 5):
+        v = c09.rand_unit(rng, 2 ** n)
+        nd = div_nondefault_partition(ctx, n)
+        # a partition / rank on which both scheme options are used: one side of 1 qubit (n = 4: U or V is 8 x 2 -> iso_scheme,
+        # the other 2 x 2 -> unitary_scheme); lr below the Schmidt rank wherever the rank allows
+        side = [ctx.rng.choice([0, n - 1])] if n >= 3 else [1]
+        if ctx.rng.random() < 0.5 and n >= 3:
+            side = sorted(set(range(n)) - set(side))
+        uns = list(nd)
+        while len(uns) > 1 and uns == sorted(uns):
+            ctx.rng.shuffle(uns)
+        optsets = [
+            ("none", dict(keys=None)),
+            ("empty", dict(keys=())),
+            ("lr-only", dict(keys=("lr",), lr=1)),
+            ("lr2-only", dict(keys=("lr",), lr=2)),
+            ("partition-only", dict(keys=("partition",), partition=nd)),
+            ("iso-only", dict(keys=("iso_scheme",), iso="knill")),
+            ("iso-ccd-explicit", dict(keys=("iso_scheme", "unitary_scheme"), iso="ccd", uni="qsd")),
+            ("uni-only", dict(keys=("unitary_scheme",), uni="csd")),
+            ("svd-only", dict(keys=("svd",), svd="regular")),
+            ("lr+partition", dict(keys=("partition", "lr"), lr=1, partition=uns, ptype="tuple")),
+            ("schemes", dict(keys=("iso_scheme", "unitary_scheme", "partition"), iso="knill", uni="csd", partition=side)),
+            ("all-nondefault", dict(keys=("svd", "unitary_scheme", "iso_scheme", "partition", "lr"), lr=1, lrtype="np.int64", partition=uns,
+                                    ptype="ndarray", iso="knill", uni="csd", svd="regular")),
+            ("all-nondefault-lr2", dict(keys=DIV_KEYS_ALL, lr=2, partition=side, ptype="tuple", iso="knill", uni="csd", svd="regular")),
+            ("all-None", dict(keys=DIV_KEYS_ALL, lr=0, lrtype="none", partition=None, ptype="none", iso=None, uni=None, svd=None)),
+        ]
+        for oname, kw in optsets:
+            # every option set through every entry point and every keyword / positional spelling
+            add("opts=" + oname, n, v, "ctor", None, **kw)
+            add("opts=" + oname, n, v, "ctor-positional", None, label=None if ctx.rng.random() < 0.5 else "L", **kw)
+            add("opts=" + oname, n, v, "ctor-kw", None, label=f"lab{n}", **kw)
+            add("opts=" + oname, n, v, "static", host_none(ctx, n, nregs=1), **kw)
+            add("opts=" + oname, n, v, "static", host_none(ctx, n, nregs=min(n, 3)), **kw)
+            add("opts=" + oname, n, v, "static-positional", host_none(ctx, n), **kw)
+            for qf in ("ints", "qubits"):
+                add("opts=" + oname, n, v, "static", host_perm(ctx, n, qf), **kw)
+            add("opts=" + oname, n, v, "static-positional", host_perm(ctx, n, ctx.rng.choice(["tuple", "npints", "mixed", "qubit-tuple"])), **kw)
+        add("opts=none", n, v, "ctor-bare", None, keys=None)
+        add("opts=none", n, v, "static-bare", host_none(ctx, n), keys=None)
+        # qubit-specifier forms with options that change the prepared state
+        kw = dict(keys=("lr", "partition"), lr=1, partition=nd)
+        width = n + 2
+        for qf in ("ints", "tuple", "npints", "qubits", "qubit-tuple", "mixed"):
+            add("qubits=" + qf, n, v, "static", host_perm(ctx, n, qf), **kw)
+        add("qubits=ndarray", n, v, "static", host_perm(ctx, n, "ndarray"), **kw)
+        a = ctx.rng.randint(0, 2)
+        add("qubits=range", n, v, "static", {"regs": div_regs(ctx, width), "qform": "range", "qubits": list(range(a, a + n)),
+                                              "idle": div_idle(ctx, width)}, **kw)
+        # a whole register of a host built from three registers, in both circuit orders
+        for regs in ([["a", 1], ["b", n], ["c", 1]], [["c", 2], ["b", n]], [["b", n], ["a", 2]]):
+            add("qubits=register", n, v, "static", {"regs": regs, "qform": "register", "register": "b", "idle": div_idle(ctx, width)}, **kw)
+        # register slices, later register first (non-ascending wires)
+        k = ctx.rng.randint(1, n - 1)
+        regs = [["a", k + 1], ["b", n - k + 1]]
+        add("qubits=slices", n, v, "static", {"regs": regs, "qform": "slices", "slices": [["b", 1, n - k + 1], ["a", 0, k]],
+                                               "idle": div_idle(ctx, width)}, **kw)
+        add("qubits=slices", n, v, "static", {"regs": regs[::-1], "qform": "slices", "slices": [["a", 1, k + 1], ["b", 0, n - k]],
+                                               "idle": div_idle(ctx, width)}, keys=DIV_KEYS_ALL, lr=1, partition=uns, iso="knill", uni="csd",
+            svd="regular")
+        # forms of the constructed gate
+        for oname, kw in (("lr1", dict(keys=("lr", "partition"), lr=1, partition=nd)), ("defaults", dict(keys=None)),
+                          ("all", dict(keys=DIV_KEYS_ALL, lr=2, partition=uns, iso="knill", uni="csd", svd="regular"))):
+            if n <= 3:
+                add("twice:" + oname, n, v, "twice", host_perm(ctx, n, ctx.rng.choice(["ints", "qubits"]), extra=1, second=True), **kw)
+            add("copy-before-definition:" + oname, n, v, "copy", host_perm(ctx, n), label=ctx.rng.choice([None, "cp"]), **kw)
+            add("inverse:" + oname, n, v, "inverse", host_perm(ctx, n), label=ctx.rng.choice([None, "inv"]), **kw)
+            add("to_gate:" + oname, n, v, "to_gate", host_perm(ctx, n), **kw)
+            add("to_instruction:" + oname, n, v, "to_instruction", host_perm(ctx, n), **kw)
+        # the same dict object (and state object) for two constructions with the contents changed in between
+        p2 = div_nondefault_partition(ctx, n)
+        firsts = [dict(keys=("lr", "partition"), lr=1, partition=nd), dict(keys=DIV_KEYS_ALL, lr=1, partition=uns, iso="knill", uni="csd", svd="regular"),
+                  dict(keys=()), dict(keys=("lr",), lr=2)]
+        seconds = [{"keys": ["lr", "partition"], "lr": 2, "partition": p2}, {"keys": [], "partition": None},
+                   {"keys": ["partition", "lr", "iso_scheme"], "lr": 1, "partition": p2, "ptype": "tuple", "iso": "knill"},
+                   {"keys": ["lr"], "lr": 0, "partition": None}]
+        for i, kw in enumerate(firsts):
+            for j, sec in enumerate(seconds):
+                if (i + j) % 2 == 0 or n == 4:
+                    add("dict-reuse", n, v, "reuse", None if (i + j) % 4 else host_perm(ctx, n), second=sec, read_between=bool((i + j) % 3 == 0), **kw)
+    return out
+
+
+# ---- family 5: sizes ------------------------------------------------------------------------------------------------
+
+def div_sizes(ctx):
+    from props import c09
+    rng = ctx.nprng()
+    out = []
+    # n = 1: no bipartition; the initializer hands over to TopDownInitialize whatever the options say
+    for name, v, et in (("generic", c09.rand_unit(rng, 2), "c128"), ("real-neg", np.array([0.6, -0.8]), "f64"),
+                        ("one", np.array([0.0, 1.0]), "intlist"), ("zero-neg", np.array([-1.0, 0.0]), "inttuple"),
+                        ("imag", np.array([0.0, 1j]), "complexlist"), ("half", np.array([1.0, 1j]) / math.sqrt(2), "c128")):
+        for oname, kw in (("none", dict(keys=None)), ("empty", dict(keys=())), ("lr1", dict(keys=("lr",), lr=1)),
+                          ("partition", dict(keys=("lr", "partition"), lr=1, partition=[0])),
+                          ("all", dict(keys=DIV_KEYS_ALL, lr=2, partition=[0], iso="knill", uni="csd", svd="regular"))):
+            for call, host in (("ctor", None), ("static", host_none(ctx, 1)), ("static", host_perm(ctx, 1, ctx.rng.choice(["ints", "qubits"]))),
+                               ("inverse", host_perm(ctx, 1)), ("copy", host_perm(ctx, 1))):
+                out.append(div_spec("sizes", f"n1-{name}-{oname}", 1, v, etype=et, call=call, host=host, **kw))
+                ctx.count("diversity:sizes:n=1:" + call)
+    # n = 2 .. 5: partition sizes 1 .. n-1, lr = 0 .. 5, for the constructor and for the static helper on a permuted host
+    plan = {2: [[0], [1]], 3: [[0], [1], [2], [0, 1], [0, 2], [1, 2]],
+            4: [[0, 1], [1, 2], [0, 3], [2], [0], [3], [0, 1, 2], [1, 2, 3], [0, 2, 3]], 5: [[1, 3], [0, 2, 4], [4], [0, 1, 2, 3]]}
+    for n, parts in plan.items():
+        v = c09.rand_unit(rng, 2 ** n)
+        for part in parts:
+            mind = min(2 ** len(part), 2 ** (n - len(part)))
+            states = [("generic", v)]
+            if mind >= 4:
+                states.append(("rank3", c09.with_spectrum(rng, n, part, [0.8, 0.5, 0.33])))
+            for name, w in states:
+                for lr in range(0, 6 if n == 4 else 5):
+                    if lr > mind + 1:
+                        continue
+                    iso, uni = SCHEMES[(lr + len(part)) % 2]
+                    ents = [("ctor", None), ("static", host_perm(ctx, n, extra=2 if n < 5 else 1))]
+                    div_cross(ctx, out, "sizes", name, n, w, entries=ents, partition=part, lr=lr, keys=DIV_KEYS_ALL[:4], iso=iso, uni=uni)
+        # the default partition (first ceil(n/2) qubits) at every size
+        for lr in (0, 1, 2):
+            div_cross(ctx, out, "sizes", "default-partition", n, v, keys=("lr",), lr=lr)
+    return out
+
+
+# ---- driver ---------------------------------------------------------------------------------------------------------
+
+DIV_TIE_CALLS = ("ctor", "ctor-positional", "ctor-kw", "ctor-bare", "static", "static-positional", "static-bare", "copy", "reuse")
+
+
+def div_tie_lines(spec, gates, vc):
+    """Plan of the gate object(s) this call form constructed, for the model (see the table above for what is covered):
+    [(op, observed lines)].  gates = None: the construction raised."""
+    from props import c09
+    n = spec["n"]
+    out = []
+    if gates is None:
+        part, lr, iso, uni = div_canon(spec, n)
+        s = np.linalg.svd(c09.ref_sep(n, vc, sorted(part)), compute_uv=False)
+        return [({"op": "plan", "n": n, "P": part, "lr": lr, "s": [float(x) for x in s], "iso": iso, "uni": uni}, ["raised"])]
+    band = spec.get("band") or NARROW_BAND
+    for g, (part, lr, iso, uni) in gates:
+        s = np.linalg.svd(c09.ref_sep(n, vc, sorted(part)), compute_uv=False)
+        if any(band[0] <= x <= band[1] for x in s):
+            continue
+        lines, s2 = observe_plan(vc, n, part, lr, iso, uni, gate=g)
+        out.append(({"op": "plan", "n": n, "P": [int(a) for a in part], "lr": int(lr), "s": s2, "iso": iso, "uni": uni}, lines))
+    return out
+
+
+def div_report(ctx, spec, problems, info):
+    key = spec["key"]
+    if problems is None:
+        ctx.count("diversity:skipped:threshold-band")
+        return
+    if info.get("rejected"):
+        ctx.count(f"diversity:{spec['etype']}:rejected-documented-ValueError")
+        ctx.ok(key, nontrivial=False)
+        return
+    if info.get("unsupported"):
+        ctx.count(f"diversity:qubits=ndarray:unsupported-form-raises-{info['unsupported']}")
+        return
+    if spec["etype"] in DIV_REDUCED and not problems:
+        ctx.count(f"diversity:{spec['etype']}:accepted-correct-to-1e-5")
+    if problems:
+        rep = {k: v for k, v in spec.items() if k not in ("repo", "tie", "_no_a2")}
+        rep["how"] = "tools/props/c07.py div_eval(spec): div_state / div_opts build the inputs, div_call executes spec['call']"
+        blame = info.get("encoder_blame")
+        if blame:
+            report_finding(ctx, f"lowrank.encoder-precision:{blame['kind']}",
+                           f"{key}: " + "; ".join(problems) + f" -- root cause: the encoder {blame['kind']} called by _encode "
+                           f"reproduces its own {blame['rows']}x{blame['cols']} matrix only to {blame['err']:.2e} "
+                           "(rank, norm and fidelity are right; no problem with qclib.unitary._apply_a2 bypassed)", rep)
+        else:
+            ctx.fail(key, "; ".join(problems), rep)
+    else:
+        if info.get("truncated") is not None:
+            ctx.count("diversity:truncated" if info["truncated"] else "diversity:untruncated")
+        ctx.ok(key, nontrivial=spec["n"] >= 2, sample=None)
+
+
+def run_diversity(ctx, tie=True):
+    from concurrent.futures import ProcessPoolExecutor
+    import multiprocessing as mp
+    specs = div_types(ctx) + div_partition(ctx) + div_lr(ctx) + div_scale(ctx) + div_phase(ctx) + div_calls(ctx) + div_sizes(ctx)
+    seen, uniq = set(), []
+    for s in specs:
+        if s["key"] not in seen:
+            seen.add(s["key"])
+            uniq.append(s)
+    specs = uniq
+    for s in specs:
+        # the plan does not see the container / dtype / phases of the state: a third of those families is enough
+        s["tie"] = bool(tie) and not (s["fam"] in ("types", "scale", "phase") and ctx.rng.random() > 0.34)
+    workers = min(12, os.cpu_count() or 2)
+    with ProcessPoolExecutor(max_workers=workers, mp_context=mp.get_context("fork")) as ex:
+        results = list(ex.map(div_eval, specs, chunksize=16))
+    for spec, (key, problems, info) in zip(specs, results):
+        for op, lines in info.get("ties") or []:
+            ctx.tie(op, lines, label=spec["key"][:200])
+            ctx.count("diversity:tie:" + spec["fam"])
+        if info.get("tie_error"):
+            ctx.count("diversity:tie:observer-error")
+            ctx.notes.append(f"plan observer failed on {spec['key']}: {info['tie_error']}")
+        div_report(ctx, spec, problems, info)
+    ctx.count("diversity:cases", len(specs))
+    ctx.notes.append("diversity cases (keys div:*): forms of ordinary inputs per entry point - see the table in tools/props/c07.py; "
+                     f"Schmidt coefficients stay outside {NARROW_BAND} around the 1e-7 rank cut (light tails 1e-3 .. 1e-6 are kept, "
+                     "a factor >= 3 away); entry-wise comparison with the truncation when the gap at the cut exceeds "
+                     f"{DIV_GAP}, otherwise fidelity, norm and the Schmidt spectrum of the prepared state only; generic float32 / "
+                     "complex64 inputs may be rejected by the documented ValueError or must be right to 1e-5 for the "
+                     "normalised up-cast vector")
+
+
 def generate(ctx):
     """Rank rule re-translated from the current source (tools/schmidt_src.py, shared with C09; Gen/SchmidtRank.lean); a refusal
     raises (broken obligation)."""
@@ -745,6 +1846,7 @@ def run(ctx):
         tasks = gen_tasks(ctx, nmax=7, nfull=6, per_n_budget=30)
     run_tasks(ctx, gen_boundary_tasks(ctx) + tasks + gen_branch_tasks(ctx))
     probe_one_qubit(ctx)
+    run_diversity(ctx)
     ctx.notes.append("boundary cases: each conjunct of the randomized-SVD switch with the others true - n = 8..13 / 14 / 15 with lr = 1 and a "
                      "partition just above round(n/2.5) on states with 16-24 comparable Schmidt coefficients (an approximate rank-1 SVD "
                      "is visibly sub-optimal there; below n = 14 the fidelity must be the largest squared coefficient), partition AT the "
@@ -775,10 +1877,17 @@ def search(ctx, hints):
                     tasks.append(make_task(name, n, p, v, max(0, op["lr"]), op.get("iso", "ccd"), op.get("uni", "qsd")))
     tasks = tasks[:60] + gen_tasks(ctx, nmax=6, nfull=4, per_n_budget=12)
     run_tasks(ctx, tasks)
+    run_diversity(ctx, tie=False)
 
 
 def replay(ctx, payload):
     r = payload["replay"]
+    if r.get("div"):
+        import framework
+        spec = dict(r, repo=framework.REPO)
+        key, problems, info = div_eval(spec)
+        div_report(ctx, spec, problems, info)
+        return
     if r.get("family") == "auto-randomized-probe":
         probe_auto_randomized(ctx)
         return
